@@ -390,8 +390,11 @@ func replay(j *ReplayJob) *ReplayResult {
 				ov++
 			}
 		}
-		if ov != s.Ov {
-			// helper goroutines park asynchronously: give them a moment
+		// helper goroutines are started with `go` and park at their first hook asynchronously: while FEWER are parked
+		// than the specification says, wait (up to 3 s on a loaded machine) before calling it a difference; more
+		// than specified is a difference at once. (One behaviour in 15 595 of a thorough run on a machine at load 40
+		// needed more than the 20 ms this used to wait: a false alarm.)
+		for wait := 0; ov < s.Ov && wait < 150; wait++ {
 			d.drain(20 * time.Millisecond)
 			ov = 0
 			for a, pk := range d.parked {
